@@ -301,15 +301,14 @@ let () =
                          let exp_t = int_of_nat (tok_after contained (nat t)) in
                          report (k ^ "/tokens-count") (if exp_t = t' then Ok else Fail (Printf.sprintf "tokens %d -> %d, specification %d" t t' exp_t));
                          report (k ^ "/tokens-value") (want true (equiv r xo));
-                         (* against the plain extrapolation WITH THE SAME limiting system *)
+                         (* OBSERVATION only (not an obligation of the property, which states the token protocol against the
+                            PLAIN widening): how often the extrapolation with the same limiting system would have been precise
+                            although the plain widening is not *)
                          (match opt "lplain" extra with
                           | Some lp ->
                             (match incl (get (int_of_string lp)) xo with
-                             | Some c2 ->
-                               let e2 = int_of_nat (tok_after c2 (nat t)) in
-                               bump (if c2 = contained then "lim-tokens:agree" else "lim-tokens:limited-precise-plain-not");
-                               report (k ^ "/tokens-same-parameters" ^ (if e2 <> t' && c2 && not contained && t' = t - 1 then ":limited-precise-token-spent" else "")) (if e2 = t' then Ok else Fail (Printf.sprintf "tokens %d -> %d; the extrapolation with the same limiting system is %s x, so %d were expected" t t' (if c2 then "contained in" else "not contained in") e2))
-                             | None -> report (k ^ "/tokens-same-parameters") Undecided)
+                             | Some c2 -> bump (if c2 = contained then "lim-tokens:agree" else "lim-tokens:limited-precise-plain-not")
+                             | None -> ())
                           | None -> ())
                        | None -> report (k ^ "/tokens-count") Undecided)
                     end)
